@@ -122,3 +122,30 @@ def multisig(ex, n, m, flagset, empties, bad, op, shape=None):
                 same = sand(same, a == b) if len(a) == len(b) else False
         claims["same_final_stack_as_core"] = same
     return claims
+
+
+# ------------------------------------------------------------------ legacy sigop count: CScript::GetSigOpCount(false)
+from btclib.script.sig_ops import sig_op_count
+
+
+def _core_sigops(script):
+    n = 0
+    pc = 0
+    while pc < len(script):
+        try:
+            op, data, pc = core.get_op(script, pc)
+        except core.ScriptErr:
+            break
+        n = n + ite(sor(op == core.OP_CHECKSIG, op == core.OP_CHECKSIGVERIFY), 1, 0) + ite(sor(op == core.OP_CHECKMULTISIG, op == core.OP_CHECKMULTISIGVERIFY), 20, 0)
+    return n
+
+
+@ob("C08", "legacy_sigop_count_is_core_GetSigOpCount", quick=[dict(N=n, tail="") for n in (0, 1, 2, 3)] + [dict(N=2, tail=t) for t in ("ac", "4cffac", "ae51af")],
+    thorough=[dict(N=n, tail=t) for n in (0, 1, 2, 3, 4) for t in ("", "ac", "4cffac", "ae51af")],
+    bound="every script of N = 0..3 (thorough 4) symbolic bytes followed by a fixed tail (nothing; CHECKSIG; a PUSHDATA1 running past the end that hides a CHECKSIG; CHECKMULTISIG 1 CHECKMULTISIGVERIFY): "
+          "sig_op_count equals Core's GetSigOpCount(false) -- 1 per CHECKSIG(VERIFY), 20 per CHECKMULTISIG(VERIFY), nothing from where GetOp fails on",
+    functions=["btclib.script.sig_ops.sig_op_count", "btclib.script.script.op_code_spans"], min_ok=1, timeout=600)
+def sigops(ex, N, tail):
+    script = ex.bytes("s", N) + bytes.fromhex(tail)
+    got = sig_op_count(script)
+    return {"same_count_as_core": got == _core_sigops(script)}
